@@ -451,6 +451,11 @@ val  ::= ["sum", tag, ty, [val..]] | ["unitsum", tag, size] | ["bool", b] | ["tu
        | ["func", "dfgx"|"load", [ty..], [out..], [ext..]]   DFG root that declares extension requirements: built
                                                       with DfBase(ops.DFG(ins, None, reqs)) / that body read back
                                                       with Hugr.load_json(body.to_json())
+       | ["func", "case"|"block"|"loop", [ty..], [out..]]    the other dataflow-parent roots (see func_desc_ok):
+                                                      Case(ops.Case(ins)); DfBase(ops.DataflowBlock(ins)), out 0 the
+                                                      branch sum; the TailLoop(just_inputs, rest) builder, out 0 the
+                                                      control sum of rows [just_inputs, just_outputs], ins =
+                                                      just_inputs + rest, the other outs of the types `rest`
        | ["ext", name, ty, [ext..]] | ["int", v, w] | ["float", x] | ["string", s]
        | ["array", [val..], ty] | ["list", [val..], ty] | ["sarray", [val..], ty, name]
 """
@@ -520,6 +525,8 @@ def build_func_body(kind, ins, outs, reqs=()):
         b = DfBase(ops.DFG(tin, None, list(reqs)))
     elif reqs:
         raise ValueError("only dfgx / load bodies declare extension requirements")
+    elif kind in ("case", "block", "loop"):
+        return build_root_body(kind, ins, outs)
     else:
         b = Dfg(*tin) if kind == "dfg" else Function("f", tin)
     wires = list(b.inputs())
@@ -530,6 +537,58 @@ def build_func_body(kind, ins, outs, reqs=()):
     if kind == "load":
         from hugr.hugr import Hugr
         return Hugr.load_json(b.hugr.to_json())
+    return b.hugr
+
+
+def loop_split(ins, outs):
+    """(just_inputs, just_outputs, rest) of a "loop" function description, None when it is not one."""
+    if not outs or outs[0][0] != "const":
+        return None
+    c = outs[0][1]
+    if c[0] != "sum" or c[2][0] != "sum" or len(c[2][1]) != 2:
+        return None
+    ji, jo = c[2][1]
+    if ins[:len(ji)] != ji or func_out_types(ins, outs[1:]) != ins[len(ji):]:
+        return None
+    return ji, jo, ins[len(ji):]
+
+
+def func_desc_ok(v) -> bool:
+    """Does a function description satisfy what its root kind requires of its outputs?  (dfg / defn / dfgx / load /
+    case: nothing; block: out 0 is a constant of a sum type; loop: see loop_split.)"""
+    if v[1] == "loop":
+        return len(v) == 4 and loop_split(v[2], v[3]) is not None
+    if v[1] == "block":
+        return len(v) == 4 and bool(v[3]) and v[3][0][0] == "const" and (
+            v[3][0][1][0] == "unitsum" or (v[3][0][1][0] == "sum" and v[3][0][1][2][0] == "sum"))
+    if v[1] == "case":
+        return len(v) == 4
+    return True
+
+
+def build_root_body(kind, ins, outs):
+    """Bodies rooted at the other dataflow parents hugr-core gives an inner signature (Case, DataflowBlock,
+    TailLoop); a Conditional / CFG root has none (hugr-py: AttributeError, hugr-core: NotMonomorphicFunction)."""
+    from hugr import ops
+    from hugr.build.dfg import DfBase
+    if not func_desc_ok(["func", kind, ins, outs]):
+        raise ValueError("malformed %s function description" % kind)
+    tin = [build_ty(t) for t in ins]
+    if kind == "case":
+        from hugr.build.cond_loop import Case
+        b = Case(ops.Case(tin))
+    elif kind == "block":
+        b = DfBase(ops.DataflowBlock(tin))
+    else:
+        from hugr.build.cond_loop import TailLoop
+        ji, _, rest = loop_split(ins, outs)
+        b = TailLoop([build_ty(t) for t in ji], [build_ty(t) for t in rest])
+    wires = list(b.inputs())
+    res = [wires[o[1]] if o[0] == "in" else b.load(build_val(o[1])) for o in outs]
+    if kind == "loop":
+        b.set_loop_outputs(res[0], *res[1:])
+    else:
+        b.set_outputs(*res)
     return b.hugr
 
 
@@ -778,6 +837,19 @@ def jval(v) -> str:
             sig = root["signature"]
         elif root["op"] == "FuncDefn" and root["signature"]["params"] == []:
             sig = root["signature"]["body"]
+        elif root["op"] == "Case":
+            sig = root["signature"]
+        elif root["op"] == "DataflowBlock":
+            # hugr-core DataflowBlock::inner_signature: inputs -> [Sum(sum_rows)] + other_outputs, extension_delta
+            _keys(root, "parent", "op", "inputs", "other_outputs", "sum_rows", "extension_delta")
+            sig = {"t": "G", "input": root["inputs"], "runtime_reqs": root["extension_delta"],
+                   "output": [{"t": "Sum", "s": "General", "rows": root["sum_rows"]}] + root["other_outputs"]}
+        elif root["op"] == "TailLoop":
+            # hugr-core TailLoop::inner_signature: just_inputs + rest -> [Sum([just_inputs, just_outputs])] + rest
+            _keys(root, "parent", "op", "just_inputs", "just_outputs", "rest", "extension_delta")
+            sig = {"t": "G", "input": root["just_inputs"] + root["rest"], "runtime_reqs": root["extension_delta"],
+                   "output": [{"t": "Sum", "s": "General", "rows": [root["just_inputs"], root["just_outputs"]]}]
+                   + root["rest"]}
         else:
             raise ValueError("function value whose root is " + root["op"])
         ins = [n for i, n in enumerate(nodes) if i > 0 and n["parent"] == 0 and n["op"] == "Input"]
@@ -1073,7 +1145,9 @@ def shrink_val(v):
                 if k in ("array", "list", "sarray"):
                     continue
                 yield v[:pos] + [l[:i] + [s] + l[i + 1:]] + v[pos + 1:]
-    if k == "func":
+    if k == "func" and v[1] in ("case", "block", "loop"):
+        yield from (f for f in shrink_root_func(v) if func_desc_ok(f))
+    elif k == "func":
         for i in range(len(v[3])):
             yield v[:3] + [v[3][:i] + v[3][i + 1:]] + v[4:]
         for i in range(len(v[2])):
@@ -1202,3 +1276,75 @@ def shrink_helper_rows(v):
         for i in range(len(l)):
             for s in shrink_helper_rows(l[i]):
                 yield v[:vp] + [l[:i] + [s] + l[i + 1:]] + v[vp + 1:]
+
+
+# ----------------------------------------------------------------------------- other body roots (C14, additive)
+# Function values whose body is rooted at the other dataflow parents hugr-core gives an inner signature: Case,
+# DataflowBlock, TailLoop (seeded C14-j: Function.type_() answered with the OUTER signature of a TailLoop root,
+# just_inputs+rest -> just_outputs+rest, instead of the signature of the body).  Separate generators, drawn after
+# everything else: rand_ty / rand_vty / rand_val / rand_val_of / rand_func and every stream built on them are unchanged.
+
+def rand_func_root(rng, depth, kind=None):
+    kind = kind or rng.choice(["loop", "loop", "loop", "case", "block", "block"])
+    if kind == "case":
+        f = rand_func(rng, depth)
+        return ["func", "case", f[2], f[3]]
+    row = lambda ns: [rand_vty(rng, 1) for _ in range(rng.choice(ns))]
+    vals = lambda r: [rand_val_of(rng, t, 1) for t in r]
+    if kind == "block":
+        f = rand_func(rng, depth)
+        if rng.random() < 0.3:
+            n = rng.choice([1, 1, 2, 3])
+            ctrl = ["unitsum", rng.randrange(n), n]
+        else:
+            rows = [row([0, 1, 1, 2]) for _ in range(rng.choice([1, 2, 2, 3]))]
+            tag = rng.randrange(len(rows))
+            ctrl = ["sum", tag, ["sum", rows], vals(rows[tag])]
+        return ["func", "block", f[2], [["const", ctrl]] + f[3]]
+    ji, jo = row([0, 1, 1, 2]), row([0, 1, 1, 2, 3])
+    if rng.random() < 0.15:
+        jo = list(ji)                                   # (the loop looks the same from outside only up to the control sum)
+    rest = [rand_ty(rng, min(depth, 2), False) for _ in range(rng.choice([0, 1, 1, 2]))]
+    tag = rng.choice([0, 1, 1])
+    ctrl = ["sum", tag, ["sum", [ji, jo]], vals([ji, jo][tag])]
+    return ["func", "loop", ji + rest, [["const", ctrl]] + [["in", len(ji) + i] for i in range(len(rest))]]
+
+
+def shrink_root_func(v):
+    """Smaller descriptions of a case / block / loop function (candidates; the caller keeps the well-formed ones)."""
+    kind, ins, outs = v[1], v[2], v[3]
+    if kind == "loop":
+        sp = loop_split(ins, outs)
+        if sp is None:
+            return
+        ji, jo, rest = sp
+        c = outs[0][1]
+        mk = lambda ji2, jo2, rest2, tag, vals: ["func", "loop", ji2 + rest2, [["const", ["sum", tag, ["sum", [ji2, jo2]], vals]]]
+                                                 + [["in", len(ji2) + i] for i in range(len(rest2))]]
+        for i in range(len(rest)):
+            yield mk(ji, jo, rest[:i] + rest[i + 1:], c[1], c[3])
+        if c[1] == 1:
+            for i in range(len(ji)):
+                yield mk(ji[:i] + ji[i + 1:], jo, rest, 1, c[3])
+            for i in range(len(jo)):
+                yield mk(ji, jo[:i] + jo[i + 1:], rest, 1, c[3][:i] + c[3][i + 1:])
+        else:
+            for i in range(len(jo)):
+                yield mk(ji, jo[:i] + jo[i + 1:], rest, 0, c[3])
+            for i in range(len(ji)):
+                yield mk(ji[:i] + ji[i + 1:], jo, rest, 0, c[3][:i] + c[3][i + 1:])
+        return
+    first = 1 if kind == "block" else 0
+    for i in range(first, len(outs)):
+        yield v[:3] + [outs[:i] + outs[i + 1:]]
+    for i in range(len(ins)):
+        if all(o[0] != "in" or o[1] != i for o in outs):          # an unused input
+            yield v[:2] + [ins[:i] + ins[i + 1:], [["in", o[1] - 1] if o[0] == "in" and o[1] > i else o for o in outs]]
+    if kind == "block" and outs[0][1][0] == "sum":
+        c = outs[0][1]
+        rows = c[2][1]
+        for i in range(len(rows)):
+            if i != c[1]:
+                yield v[:3] + [[["const", ["sum", c[1] - (i < c[1]), ["sum", rows[:i] + rows[i + 1:]], c[3]]]] + outs[1:]]
+        if c[3]:
+            yield v[:3] + [[["const", ["sum", c[1], ["sum", rows[:c[1]] + [[]] + rows[c[1] + 1:]], []]]] + outs[1:]]
